@@ -83,18 +83,40 @@ def build(module):
             return len(a) == 1
         return len(a) == 2 and a[1] is default
     lenv = dict(env, asked=Helper(asked), got=Helper(lambda e: rec.get('got')), NotImplemented=NotImplemented)
-    RULE = PObj(object, name='layout_rule')
-    cs.append(Contract(MODULE + ':Dispatcher.layout', params={'self': DispT(), 'rule': Const(RULE)},
-                       ensures=["asked('layout.get', rule, NotImplemented)", 'result is got()'], env=lenv))
+    # the tables are real dicts with known entries: the contract fixes the answer, not the dict method used to find it
+    RULE, OTHER, H = PObj(object, name='layout_rule'), PObj(object, name='other_rule'), PObj(object, name='handler')
 
-    class RuleInst(object):
-        def make(self, name):
-            return PObj(rt.Resolve, name='deferrable_rule')
+    def disp_with(**tables):
+        fields = {}
+        for k, v in tables.items():
+            class T(object):
+                def __init__(self, v=v):
+                    self.v = v
 
-        def __repr__(self):
-            return 'Resolve()'
-    cs.append(Contract(MODULE + ':Dispatcher.deferrable', params={'self': DispT(), 'rule': RuleInst()},
-                       ensures=["asked('deferrable.get', Resolve, NotImplemented)", 'result is got()'], env=dict(lenv, Resolve=rt.Resolve)))
+                def make(self, name):
+                    return PDict(dict(self.v))
+
+                def __repr__(self):
+                    return 'dict(%d)' % len(self.v)
+            fields['_Dispatcher__' + k] = T()
+        return Obj(Disp, fields)
+    for present in (True, False):
+        tbl = {RULE: H} if present else {OTHER: H}
+        want = 'handler()' if present else 'NotImplemented'
+        note = 'rule registered' if present else 'rule not registered'
+        henv = dict(lenv, handler=Helper(lambda e: H))
+        cs.append(Contract(MODULE + ':Dispatcher.layout', params={'self': disp_with(layout_handlers=tbl), 'rule': Const(RULE)},
+                           ensures=['result is %s' % want], env=henv, notes=note))
+        dtbl = {rt.Resolve: H} if present else {rt.Declare: H}
+
+        class RuleInst(object):
+            def make(self, name):
+                return PObj(rt.Resolve, name='deferrable_rule')
+
+            def __repr__(self):
+                return 'Resolve()'
+        cs.append(Contract(MODULE + ':Dispatcher.deferrable', params={'self': disp_with(deferrable_handlers=dtbl), 'rule': RuleInst()},
+                           ensures=['result is %s' % want], env=henv, notes=note))
 
     class NodeOfKind(object):
         def make(self, name):
@@ -103,9 +125,10 @@ def build(module):
 
         def __repr__(self):
             return 'Identifier node'
-    cs.append(Contract(MODULE + ':Dispatcher.get_optimized_definition', params={'self': DispT(), 'node': NodeOfKind()},
-                       ensures=["asked('optimized.getitem', 'Identifier')", 'result is got()'],
-                       env=dict(lenv, asked=Helper(lambda e, what, key: len(rec['log']) == 1 and rec['log'][0][0] == what and rec['log'][0][1] == [key]))))
+    DEFN = PObj(object, name='optimized_definition')
+    cs.append(Contract(MODULE + ':Dispatcher.get_optimized_definition',
+                       params={'self': disp_with(optimized_definitions={'Identifier': DEFN, 'Node': OTHER}), 'node': NodeOfKind()},
+                       ensures=['result is defn()'], env=dict(lenv, defn=Helper(lambda e: DEFN))))
     cs.append(Contract(MODULE + ':Dispatcher.indent_str', params={'self': DispT()}, ensures=['result == self._Dispatcher__indent_str', 'calls() == 0'], env=lenv))
     cs.append(Contract(MODULE + ':Dispatcher.newline_str', params={'self': DispT()}, ensures=['result == self._Dispatcher__newline_str', 'calls() == 0'], env=lenv))
     cs.append(Contract(MODULE + ':Dispatcher.has_layout', params={'self': DispT()}, ensures=['result == (len(self._Dispatcher__layout_handlers) > 0)'], env=lenv))
@@ -258,7 +281,8 @@ def build(module):
             e.in_spec = saved
 
     def copied(e, mine, given):
-        return mine is not given and isinstance(mine, PDict) and isinstance(given, PDict) and mine.val == given.val
+        # (whether the table is copied or shared is not what the printing properties rest on: same entries)
+        return isinstance(mine, PDict) and isinstance(given, PDict) and mine.val == given.val
     ienv = dict(env, optimized_ok=Helper(optimized_ok), copied=Helper(copied))
     init_params = {'self': Obj(Disp, {}), 'definitions': Tables(defs), 'token_handler': Const(TH), 'layout_handlers': Tables(handlers),
                    'deferrable_handlers': Tables({rt.Resolve: h_struct})}
